@@ -328,6 +328,10 @@ func (p *Pool) Put(x interface{}) {
 	if len(p.items) < 256 {
 		p.items = append(p.items, x)
 	}
+	// a scheduling point after the object has become visible to other goroutines (as after
+	// Unlock): code that goes on using what it has just put back is only caught if somebody
+	// else can take it now
+	simrt.Yield()
 }
 
 // ------------------------------------------------------------------ Map (insertion ordered)
